@@ -686,6 +686,22 @@ class SqlEngine:
     def ev_NEQ(self, e: exp.NEQ, env: Dict[str, SV]) -> SV:
         return self.compare(self.eval(e.this, env), self.eval(e.expression, env), "<>")
 
+    def ev_NullSafeEQ(self, e: exp.NullSafeEQ, env: Dict[str, SV]) -> SV:
+        """a IS NOT DISTINCT FROM b: never NULL; both NULL, or both not NULL and equal."""
+        a, b = self.eval(e.this, env), self.eval(e.expression, env)
+        if a.sort == "null" and b.sort == "null":
+            return SV("bool", True, False)
+        if a.sort == "null":
+            return SV("bool", b.null, False)
+        if b.sort == "null":
+            return SV("bool", a.null, False)
+        eq = self.compare(a, b, "=")
+        return SV("bool", Or(And(a.null, b.null), And(Not(a.null), Not(b.null), eq.v)), False)
+
+    def ev_NullSafeNEQ(self, e: exp.NullSafeNEQ, env: Dict[str, SV]) -> SV:
+        v = self.ev_NullSafeEQ(e, env)  # type: ignore[arg-type]
+        return SV("bool", Not(v.v), False)
+
     def ev_LT(self, e: exp.LT, env: Dict[str, SV]) -> SV:
         return self.compare(self.eval(e.this, env), self.eval(e.expression, env), "<")
 
